@@ -360,6 +360,28 @@ def apply_model(sym, n, f, vals, mut_idx, st):
                     out.append((s2, (VAL, NONE)))
             return out
 
+    # ---- `TABLE.iter().find(|e| p(e))` over a literal table: the first element satisfying p ---------------------------------------
+    if p in ("std::iter::Iterator::find", "std::iter::Iterator::position", "std::iter::Iterator::any") and len(vals) == 2 \
+            and vals[1][0] in ("closure", "fnref") and not mut_idx:
+        src = vals[0]
+        while src[0] == "call" and src[1].endswith(("IntoIterator::into_iter", "core::slice::iter", "core::array::iter")) and len(src[2]) == 1:
+            src = src[2][0]
+        if src[0] == "array" and 0 < len(src[1]) <= 32 and all(e_[0] in ("tuple", "lit") for e_ in src[1]):
+            states = [st]
+            out = []
+            for i_, el in enumerate(src[1]):
+                nxt = []
+                for s0 in states:
+                    for s1, (k1, v1) in sym.apply(vals[1], [el], s0, n):
+                        for s2, hit in sym.fork_bool(s1, v1):
+                            if hit:
+                                res_ = some(el) if last == "find" else (some(lit_int(i_)) if last == "position" else TRUE)
+                                out.append((s2, (VAL, res_)))
+                            else:
+                                nxt.append(s2)
+                states = nxt
+            return out + [(s0, (VAL, FALSE if last == "any" else NONE)) for s0 in states]
+
     # ---- `[a, b, c].into_iter().try_for_each(f)`: f(a)?; f(b)?; f(c)?; Ok(()) --------------------------------------------------
     if p == "std::iter::Iterator::try_for_each" and len(vals) == 2 and vals[1][0] in ("closure", "fnref"):
         src = vals[0]
